@@ -30,7 +30,7 @@ theorem flipLast_snoc (l : Key) (b : Bool) : flipLast (l ++ [b]) = l ++ [!b] := 
     | cons c l => simp only [List.cons_append, flipLast] at ih ⊢; rw [ih]
 
 theorem take_succ_bitAt (k : Key) (j : Nat) (hj : j < k.length) : k.take (j+1) = k.take j ++ [bitAt k j] := by
-  rw [List.take_succ]
+  rw [List.take_add_one]
   simp [bitAt, List.getD_eq_getElem?_getD, List.getElem?_eq_getElem hj]
 
 theorem sib_eq (k : Key) (j : Nat) (hj : j < k.length) : sib k j = k.take j ++ [!(bitAt k j)] := by
@@ -391,6 +391,133 @@ theorem gapsBr_pairwise (target order : Key) : ∀ (sub : Trie α) (P : Key) (i 
         exact ⟨hR', hL', fun b hb a ha => (cross a ha b hb).symm⟩
       · rw [List.pairwise_append]
         exact ⟨hL', hR', cross⟩
+
+/-! ### `TrieGaps` itself -/
+
+theorem gaps_cover (target order : Key) (t : Trie α) (x : Key) (hwf : WF [] t) (ht : isPre target x = true)
+    (hkl : ∀ k ∈ keysL t, k.length ≤ x.length) (hh : t.height ≤ x.length) :
+    (∃ k ∈ keysL t, isPre k x = true) ∨ (∃ g ∈ gaps t target order, isPre g x = true) := by
+  cases t with
+  | empty => exact Or.inr ⟨target, by simp [gaps], ht⟩
+  | leaf k d =>
+    have hkx : k.length ≤ x.length := hkl k (by simp [keysL])
+    simp only [gaps]
+    by_cases h1 : isPre target k = true
+    · simp only [h1, ↓reduceIte]
+      have htk : k.take target.length = target := take_of_isPre h1
+      rcases diverge_or_under k x hkx _ target.length rfl (isPre_length h1) (by rw [htk]; exact ht) with h | ⟨j, hj1, hj2, hj3⟩
+      · exact Or.inl ⟨k, by simp [keysL], h⟩
+      · right
+        refine ⟨sib k j, ?_, hj3⟩
+        unfold sortByOrder
+        rw [mem_sortBy, mem_siblings_drop]
+        exact ⟨j, hj1, hj2, rfl⟩
+    · simp only [h1, Bool.false_eq_true, ↓reduceIte]
+      by_cases h2 : isPre k target = true
+      · exact Or.inl ⟨k, by simp [keysL], isPre_trans h2 ht⟩
+      · simp only [h2, Bool.false_eq_true, ↓reduceIte]
+        exact Or.inr ⟨target, by simp, ht⟩
+  | node l r =>
+    simp only [height] at hh
+    have hx0 : ([] : Key).length < x.length := by simp; omega
+    have hsn := isPre_snoc_of (path := []) (k := x) (by simp [isPre]) hx0
+    have hres : (∃ k ∈ keysL (node l r), isPre k x = true) ∨
+        (∃ g, (g ∈ gapsBr target order 0 false l ∨ g ∈ gapsBr target order 0 true r) ∧ isPre g x = true) := by
+      cases hb : bitAt x ([] : Key).length with
+      | false =>
+        rw [hb] at hsn
+        rcases gapsBr_cover target order l [] false x hwf.1 hsn ht (fun k hk => hkl k (by simp [keysL, hk]))
+          (by simp; omega) with ⟨k, hk1, hk2⟩ | ⟨g, hg1, hg2⟩
+        · exact Or.inl ⟨k, by simp [keysL, hk1], hk2⟩
+        · exact Or.inr ⟨g, Or.inl hg1, by simpa using hg2⟩
+      | true =>
+        rw [hb] at hsn
+        rcases gapsBr_cover target order r [] true x hwf.2 hsn ht (fun k hk => hkl k (by simp [keysL, hk]))
+          (by simp; omega) with ⟨k, hk1, hk2⟩ | ⟨g, hg1, hg2⟩
+        · exact Or.inl ⟨k, by simp [keysL, hk1], hk2⟩
+        · exact Or.inr ⟨g, Or.inr hg1, by simpa using hg2⟩
+    rcases hres with h | ⟨g, hg, hgx⟩
+    · exact Or.inl h
+    · right
+      refine ⟨g, ?_, hgx⟩
+      simp only [gaps, gapsAt]
+      split
+      · exact List.mem_append.2 hg.symm
+      · exact List.mem_append.2 hg
+
+theorem gaps_sound (target order : Key) (t : Trie α) (hwf : WF [] t) :
+    ∀ g ∈ gaps t target order, ∀ k ∈ keysL t, Incomp g k := by
+  intro g hg k hk
+  cases t with
+  | empty => simp [keysL] at hk
+  | leaf k0 d =>
+    simp only [keysL, List.mem_singleton] at hk
+    subst hk
+    simp only [gaps] at hg
+    split at hg
+    · unfold sortByOrder at hg
+      rw [mem_sortBy, mem_siblings_drop] at hg
+      obtain ⟨j, _, hj2, rfl⟩ := hg
+      exact sib_incomparable_self k j hj2
+    · rename_i h1
+      split at hg
+      · cases hg
+      · rename_i h2
+        simp only [List.mem_singleton] at hg
+        subst hg
+        exact ⟨by simpa using h1, by simpa using h2⟩
+  | node l r =>
+    simp only [gaps, gapsAt] at hg
+    have hg' : g ∈ gapsBr target order 0 false l ∨ g ∈ gapsBr target order 0 true r := by
+      split at hg
+      · exact (List.mem_append.1 hg).symm
+      · exact List.mem_append.1 hg
+    simp only [keysL, List.mem_append] at hk
+    have e0 : ([] : Key).length = 0 := rfl
+    rcases hg' with h | h
+    · rcases hk with hk | hk
+      · simpa using gapsBr_sound target order l [] false hwf.1 g h k hk
+      · have := incomp_of_diverge (gapsBr_under target order l [] false hwf.1 g h) (hwf.2.mem_isPre hk)
+        simpa using this
+    · rcases hk with hk | hk
+      · have := incomp_of_diverge (x := true) (gapsBr_under target order r [] true hwf.2 g h) (hwf.1.mem_isPre hk)
+        simpa using this
+      · simpa using gapsBr_sound target order r [] true hwf.2 g h k hk
+
+theorem gaps_pairwise (target order : Key) (t : Trie α) (hwf : WF [] t) :
+    (gaps t target order).Pairwise Incomp := by
+  cases t with
+  | empty => simp [gaps]
+  | leaf k d =>
+    simp only [gaps]
+    split
+    · have hall : (siblingPrefixes k).Pairwise Incomp := by
+        rw [siblingPrefixes_eq, List.pairwise_map]
+        refine List.Pairwise.imp_of_mem ?_ (List.nodup_range (n := k.length))
+        intro a b ha hb hne
+        have ha' : a < k.length := List.mem_range.1 ha
+        have hb' : b < k.length := List.mem_range.1 hb
+        exact ⟨sib_incomparable k a b ha' hb' hne, sib_incomparable k b a hb' ha' (Ne.symm hne)⟩
+      unfold sortByOrder
+      exact (List.Pairwise.sublist (List.drop_sublist _ _) hall).perm (sortBy_perm _ _).symm (fun h => h.symm)
+    · split <;> simp
+  | node l r =>
+    simp only [gaps, gapsAt]
+    have hL : (gapsBr target order 0 false l).Pairwise Incomp := by
+      have := gapsBr_pairwise target order l [] false hwf.1
+      simpa using this
+    have hR : (gapsBr target order 0 true r).Pairwise Incomp := by
+      have := gapsBr_pairwise target order r [] true hwf.2
+      simpa using this
+    have cross : ∀ a ∈ gapsBr target order 0 false l, ∀ b ∈ gapsBr target order 0 true r, Incomp a b := by
+      intro a ha b hb
+      have := incomp_of_diverge (gapsBr_under target order l [] false hwf.1 a ha) (gapsBr_under target order r [] true hwf.2 b hb)
+      simpa using this
+    split
+    · rw [List.pairwise_append]
+      exact ⟨hR, hL, fun b hb a ha => (cross a ha b hb).symm⟩
+    · rw [List.pairwise_append]
+      exact ⟨hL, hR, cross⟩
 
 end Trie
 
